@@ -1,4 +1,5 @@
 """C12 — caco3: names and patterns resolve exactly and inside the workspace (DESIGN.md §7 C12)."""
+import concurrent.futures
 import json
 import os
 import shutil
@@ -300,22 +301,27 @@ def run(ck):
 
     model_ok = all(built.get(x) for x in MODEL)
     if cases and model_ok:
-        shard = 4000
+        shard = 2000
         mism = []
-        for s in range(0, len(cases), shard):
+        head = ("From Coq Require Import List NArith Bool String.\n"
+                "From Verif Require Import Lib.Path Caco.Names Caco.FileSet Caco.NamesCorr.\n"
+                "Import ListNotations.\nLocal Open Scope N_scope.\n"
+                "Definition cases : list ccase := [\n  ")
+
+        def ev(s):
             part = cases[s:s + shard]
-            txt = ("From Coq Require Import List NArith Bool String.\n"
-                   "From Verif Require Import Lib.Path Caco.Names Caco.FileSet Caco.NamesCorr.\n"
-                   "Import ListNotations.\nLocal Open Scope N_scope.\n"
-                   "Definition cases : list ccase := [\n  "
-                   + ";\n  ".join(to_coq(c) for c in part) + "\n].\n"
+            txt = (head + ";\n  ".join(to_coq(c) for c in part) + "\n].\n"
                    "Definition M := Eval vm_compute in mismatches cases.\nPrint M.\n")
             rc, out = ck.coq_eval("cases_%d" % (s // shard), txt)
-            got = vlib.parse_coq_list_of_nat(out, "M") if rc == 0 else None
-            if got is None:
-                ck.broken.append({"what": "correspondence evaluation failed", "detail": out[-1500:]})
-                break
-            mism += [s + i for i in got]
+            return s, (vlib.parse_coq_list_of_nat(out, "M") if rc == 0 else None), out
+
+        with concurrent.futures.ThreadPoolExecutor(max_workers=12) as ex:
+            for s, got, out in ex.map(ev, range(0, len(cases), shard)):
+                if got is None:
+                    ck.broken.append({"what": "correspondence evaluation failed", "detail": out[-1500:]})
+                    continue
+                mism += [s + i for i in got]
+        mism.sort()
         ck.coverage["correspondence_cases"] = len(cases)
         ck.coverage["correspondence_mismatches"] = len(mism)
         for i in mism[:50]:
